@@ -66,6 +66,7 @@ class Ctx:
         self.obligations = []
         self.counter = 0
         self.bound = []  # stack of [name, facts]
+        self.nonneg = set()  # z3 ids of bound variables known to be >= 0 (quantifier ranges starting at a literal >= 0)
         self.ufs = {}
         self.feas_timeout_ms = feas_timeout_ms
         self.where = ["?"]
@@ -1341,7 +1342,7 @@ class Interp:
             if isinstance(idx, int):
                 return obj.get(idx if idx >= 0 else v_add(n, idx))
             neg = mk(zi < 0)
-            if neg is False:
+            if neg is False or zi.get_id() in self.ctx.nonneg:
                 return obj.get(idx)
             return obj.get(mk(z3.If(zi < 0, zi + zn, zi)))
         if isinstance(obj, Opaque):
